@@ -1223,6 +1223,124 @@ fn sem_try_forms_race() {
     });
 }
 
+/// C07 / C08, the first poll of a waiter racing with the event it waits for (listen-then-recheck):
+///  - the only permit of a Semaphore is released on one thread while an acquire future is polled for the first time on
+///    another: a Pending future has been woken, and after every woken task is polled again it holds the permit;
+///  - the running initialiser of a OnceCell is cancelled on one thread while a second get_or_init is polled for the first
+///    time on another: the second one takes over and initialises the cell.
+fn first_poll_races() {
+    let mut b = loom::model::Builder::new();
+    b.preemption_bound = bound();
+    b.check(|| {
+        EXECUTIONS.fetch_add(1, std::sync::atomic::Ordering::Relaxed);
+        let s = std::sync::Arc::new(Semaphore::new(1));
+        let g = s.try_acquire_arc().unwrap();
+        let t = loom::thread::spawn(move || drop(g));
+        let mut ta = Task::new(s.acquire_arc());
+        ta.poll();
+        t.join().unwrap();
+        ta.settle();
+        if ta.pending() {
+            panic!("LOOM-VIOLATION first_poll_races: Semaphore: lost wake-up: the permit is back, every woken task has been polled again, the acquire future is pending (it was {}woken)", if ta.woken() { "" } else { "never " });
+        }
+        drop(ta);
+    });
+    let mut b = loom::model::Builder::new();
+    b.preemption_bound = bound();
+    b.check(|| {
+        EXECUTIONS.fetch_add(1, std::sync::atomic::Ordering::Relaxed);
+        let cell = std::sync::Arc::new(OnceCell::<u32>::new());
+        let gate = Arc::new(AtomicBool::new(false));
+        let (c1, g1) = (cell.clone(), gate.clone());
+        let mut ta = Task::new(async move { *c1.get_or_init(|| async move { Gate(g1).await; 7u32 }).await });
+        ta.poll();
+        assert!(ta.pending());
+        let t = loom::thread::spawn(move || drop(ta)); // the running initialiser is cancelled
+        let c3 = cell.clone();
+        let mut tc = Task::new(async move { *c3.get_or_init(|| async { 9u32 }).await });
+        tc.poll(); // first poll of the second caller
+        t.join().unwrap();
+        for _ in 0..4 {
+            tc.settle();
+        }
+        if tc.pending() {
+            panic!("LOOM-VIOLATION first_poll_races: OnceCell: hand-over lost: the running initialiser was cancelled, the cell is empty, every woken task has been polled again, and the other get_or_init is still pending (cell = {:?})", cell.get());
+        }
+        if tc.out != Some(9) || cell.get().copied() != Some(9) {
+            panic!("LOOM-VIOLATION first_poll_races: OnceCell: values: get_or_init {:?}, cell {:?} (9 expected)", tc.out, cell.get());
+        }
+        drop(tc);
+    });
+    let mut b = loom::model::Builder::new();
+    b.preemption_bound = bound();
+    b.check(|| {
+        EXECUTIONS.fetch_add(1, std::sync::atomic::Ordering::Relaxed);
+        // Mutex: the holder unlocks while a lock_arc() is polled for the first time
+        let m = std::sync::Arc::new(Mutex::new(0u32));
+        let g = m.try_lock_arc().unwrap();
+        let t = loom::thread::spawn(move || drop(g));
+        let mut tl = Task::new(m.lock_arc());
+        tl.poll();
+        t.join().unwrap();
+        tl.settle();
+        if tl.pending() {
+            panic!("LOOM-VIOLATION first_poll_races: Mutex: lost wake-up: the mutex is free, every woken task has been polled again, the lock_arc() is pending");
+        }
+        drop(tl);
+        // RwLock: the writer unlocks while a read_arc() and an upgradable_read_arc() are polled for the first time
+        let l = std::sync::Arc::new(RwLock::new(0u32));
+        let w = l.try_write_arc().unwrap();
+        let t = loom::thread::spawn(move || drop(w));
+        let mut tr = Task::new(l.read_arc());
+        tr.poll();
+        let mut tu = Task::new(l.upgradable_read_arc());
+        tu.poll();
+        t.join().unwrap();
+        for _ in 0..4 {
+            tr.settle();
+            tu.settle();
+        }
+        if tr.pending() || tu.pending() {
+            panic!("LOOM-VIOLATION first_poll_races: RwLock: lost wake-up: no write guard is alive, every woken task has been polled again: read() pending = {}, upgradable_read() pending = {}", tr.pending(), tu.pending());
+        }
+        drop(tr);
+        drop(tu);
+    });
+}
+
+/// C06 (b), a woken reader that has to park AGAIN: a read() waits behind a write guard; on another thread that guard is
+/// dropped, the lock is taken again with try_write and released again, while the reader is polled whenever it was woken.
+/// With no write guard alive and every woken task polled again the read() is done.
+fn rw_reader_reparks() {
+    let mut b = loom::model::Builder::new();
+    b.preemption_bound = bound();
+    b.check(|| {
+        EXECUTIONS.fetch_add(1, std::sync::atomic::Ordering::Relaxed);
+        let l = std::sync::Arc::new(RwLock::new(0u32));
+        let w1 = l.try_write_arc().unwrap();
+        let mut tr = Task::new(l.read_arc());
+        tr.poll();
+        assert!(tr.pending());
+        let l2 = l.clone();
+        let t = loom::thread::spawn(move || {
+            drop(w1);
+            let w2 = l2.try_write_arc();
+            drop(w2);
+        });
+        for _ in 0..2 {
+            if tr.woken() {
+                tr.poll();
+            }
+        }
+        t.join().unwrap();
+        tr.settle();
+        if tr.pending() {
+            panic!("LOOM-VIOLATION rw_reader_reparks: lost wake-up: no write guard is alive, no writer waits, every woken task has been polled again, the read() is pending");
+        }
+        drop(tr);
+    });
+}
+
 fn main() {
     let which = std::env::args().nth(1).unwrap_or_else(|| "all".to_string());
     let tests: Vec<(&str, fn())> = vec![
@@ -1241,6 +1359,8 @@ fn main() {
         ("rw_writer_announced", rw_writer_announced),
         ("mutex_starved_try", mutex_starved_try),
         ("blocking_forms", blocking_forms),
+        ("rw_reader_reparks", rw_reader_reparks),
+        ("first_poll_races", first_poll_races),
         ("mutex_try_race", mutex_try_race),
         ("sem_try_forms_race", sem_try_forms_race),
         ("mutex_starve_vs_unlock", mutex_starve_vs_unlock),
